@@ -25,6 +25,7 @@ REQUIRED_COUNTERS = {"cases_cycle": {"quick": 300, "thorough": 5000},
                      "cases_gcm_exiting_path": {"quick": 300, "thorough": 5000},
                      "cases_gcm_inner_stack_path": {"quick": 300, "thorough": 5000},
                      "inside_extract_compared": {"quick": 3000, "thorough": 50000},
+                     "hooks_delivered_by_late_module_glue": {"quick": 48, "thorough": 48},
                      "equal_code_not_dispatched": {"quick": 100, "thorough": 1000},
                      "late_registration_cases": {"quick": 80, "thorough": 80},
                      "hooks_that_extract_something_themselves": {"quick": 2000, "thorough": 40000}}
@@ -459,6 +460,56 @@ def worker(spec):
                                   problems=["hooks registered after the type was first seen are not applied: obj=%s, "
                                             "hook calls %r" % (type(c1.obj).__name__, seen)], interp=interp)
             h.close()
+
+    # hooks that arrive through a module's own glue function: the module was imported after the last extraction,
+    # and the first thing that looks at one of its managers is fill_context - outside an extract, or inside one
+    import types as _types
+    for rep in range(24):
+        for where in ("outside", "inside"):
+            class GlueMgr(object):
+                def __enter__(self):
+                    return self
+
+                def __exit__(self, *e):
+                    return False
+
+            name = "vv_c11_latemod_%s_%d" % (where, rep)
+            mod = _types.ModuleType(name)
+            ran = []
+
+            def install(GlueMgr=GlueMgr, ran=ran):
+                ran.append(1)
+
+                @elaborate_context.register(GlueMgr)
+                def _glue_elab(mgr, ctx):
+                    ctx.description = "from module glue"
+
+            mod._stackscope_install_glue_ = install
+            extract(0)                    # everything that was there before is settled
+            sys.modules[name] = mod       # "import"
+            m = GlueMgr()
+            try:
+                res.evaluations += 1
+                res.count("hooks_delivered_by_late_module_glue")
+                res.nontrivial("late-module-glue", rep, where)
+                if where == "outside":
+                    c = Context(obj=m, is_async=False)
+                    fill_context(c)
+                else:
+                    def holder2(m):
+                        with m:
+                            yield 1
+                    h2 = holder2(m)
+                    next(h2)
+                    c = extract(h2).frames[0].contexts[0]
+                    h2.close()
+                if c.description != "from module glue" or ran != [1]:
+                    res.violation(kind="fill_context differs from the model",
+                                  case="hooks delivered by the glue of a module imported since the last extraction (%s)" % where,
+                                  problems=["description %r, module glue ran %d times: fill_context %s an extract does not see "
+                                            "the module's hooks" % (c.description, len(ran), where)], interp=interp)
+            finally:
+                sys.modules.pop(name, None)
     return res
 
 
